@@ -225,6 +225,9 @@ def slot_form(e, tvar):
             return ("gated", idx, th["fields"][0]["e"])
         if idx is not None and _is_none(th) and _is_some(el):
             return ("inverted", idx, el["fields"][0]["e"])
+        if idx is None and cond.get("k") == "UpvarRef" and (cond.get("ty") or "") == "bool" and ((_is_some(th) and _is_none(el)) or (_is_none(th) and _is_some(el))):
+            # gated by a Boolean captured from the constructor: whatever it is, it is not the operand's flag of THIS pass (the flags are the closure's argument)
+            return ("captured-gate", cond["v"], None)
         return ("other-if", None, None)
     if e.get("k") == "Call" and callee(e) in ("core::bool::<impl bool>::then", "core::bool::<impl bool>::then_some") and len(e["args"]) == 2:
         cond = peel(e["args"][0])
@@ -515,6 +518,9 @@ def r9_slot_arity_and_gate(facts):
                           % (i, fl_[0], fl_[1], i))
                 else:
                     c.bad(sinst, swhere, "slot %d is Some when t[%d] OR t[%d] holds: an untracked operand %d is delivered to when the other one is tracked" % (i, fl_[0], fl_[1], i))
+            elif form == "captured-gate":
+                c.bad(sinst, swhere, "slot %d is Some depending on `%s`, a Boolean fixed when the operation was built, not on t[%d], the operand's tracking flag of this pass: an untracked "
+                      "operand %d is delivered to (its consumer counter underflows) or a tracked one is not" % (i, str(idx).split("#")[0], i, i))
             elif form == "filtered":
                 c.bad(sinst, swhere, "slot %d is passed through `Option::filter`: whether operand %d receives its adjoint depends on a predicate on the value (a tracked operand may get None: "
                       "its consumer counter is then not decremented)" % (i, i))
